@@ -465,6 +465,8 @@ def alphabet(ids):
         ("type", "in", [1, 2]), ("type", "!=", {"a": 1}), ("id", "=", {"a": 1}),
         # holds for the older version of each identity only
         ("name", "=", "n0"),
+        # values no directory entry can be named like: equal to no type / id
+        ("type", "=", "a" * 300), ("id", "=", "identity--" + "a" * 300), ("type", "=", "a\x00b"), ("id", "in", ["identity--a\x00", i1]),
     ]
     return A
 
@@ -547,7 +549,7 @@ def wl_alphabet(ctx, rng, i):
 
 
 def alphabet_size(tier):
-    n = 36
+    n = 40
     return n + n * (n - 1) // 2 + (n * (n - 1) * (n - 2) // 6 if tier == "thorough" else 0)
 
 
